@@ -69,3 +69,41 @@ Qed.
 Print Assumptions C06_source_add_page.
 Print Assumptions C06_source_add_pages.
 Print Assumptions C06_source_add_page_resupplied.
+
+(* ---- the potential-prefix query and the removal of a rule, translated (GenTraphR.v) ----
+   For EVERY history whose reopen requests re-supply the rules (see above), on the RAM tables and trie bytes of the state reached:
+   Traph.get_potential_prefix answers exactly what the specification decides (s_potential: the prefix of the webentity a page at
+   that LRU would join or create, None = False), without changing a byte. *)
+From Traph Require GenTraphR GenTraphRFacts QueryCore.
+Import GenTraphR.
+Theorem C06_source_potential_prefix : forall d rs h, wf_rules rs -> Forall wf_op h -> resupplied (init d rs) h ->
+  let s := run d rs h in let a := srun d rs h in
+  forall rm sg lru, ramrep s rm -> trep (TraceDefs.files_of s) sg -> wf_lru lru ->
+  exists sg', py_traph_get_potential_prefix rm sg lru = Some (sg', s_potential lru a) /\ pm_array sg' = pm_array sg.
+Proof.
+  intros d rs h H1 H2 H3 s a rm sg lru Hram Hrep Hl.
+  destruct (GenTraphRFacts.py_traph_get_potential_prefix_reach d rs h H1 H2 H3 rm sg lru Hram Hrep Hl) as (sg' & E & _ & Harr).
+  fold s in E. exists sg'. split; [|exact Harr].
+  unfold a. rewrite <- (QueryCore.potential_spec _ _ (run_Rc d rs h H1 H2) lru Hl). exact E.
+Qed.
+
+(* Traph.remove_webentity_creation_rule: for EVERY history, the translated method answers as the specification does (KeyError /
+   TraphException = None exactly when the specification crashes / refuses), and on success the RAM table and the bytes are those
+   of the model's next state, hence (step_R) of the specification's. *)
+Theorem C06_source_remove_rule : forall d rs h, wf_rules rs -> Forall wf_op h ->
+  let s := run d rs h in let a := srun d rs h in
+  forall rm sg p, ramrep s rm -> trep (TraceDefs.files_of s) sg -> wf_lru p ->
+  let s' := fst (Ops.step s (ORemoveRule p)) in
+  match snd (sstep s a (ORemoveRule p)) with
+  | Ok => exists rm' sg', py_traph_remove_webentity_creation_rule rm sg p = Some (rm', sg', true) /\
+            ramrep s' rm' /\ trep (TraceDefs.files_of s') sg'
+  | _ => py_traph_remove_webentity_creation_rule rm sg p = None
+  end.
+Proof.
+  intros d rs h H1 H2 s a rm sg p Hram Hrep Hp s'.
+  pose proof (proj2 (step_R _ _ (ORemoveRule p) (run_RR d rs h H1 H2) Hp)) as Hspec. fold s a in Hspec.
+  rewrite <- Hspec. clear Hspec. unfold s'. cbn [Ops.step].
+  exact (GenTraphRFacts.py_traph_remove_rule_spec s (StoreFacts2.run_Inv18 d rs h H2) (StoreFacts2.run_root_first d rs h) rm sg p Hram Hrep Hp).
+Qed.
+Print Assumptions C06_source_potential_prefix.
+Print Assumptions C06_source_remove_rule.
